@@ -142,6 +142,15 @@ type Conn struct {
 	// serverS belongs to the read loop once the handshake is over.
 	serverS Settings
 
+	// State of the response header block that is being received, owned by the
+	// read loop: the start of a field that a frame boundary cut in two, and how
+	// many fields of the block have been decoded. A block may be split over
+	// CONTINUATION frames at any octet, and there is only ever one in progress
+	// on a connection. It is kept here rather than with the request because
+	// the block has to be decoded to its end even when the request is gone.
+	hdrPending []byte
+	hdrFields  int
+
 	state    connState
 	closeRef uint32
 
@@ -856,10 +865,9 @@ func (c *Conn) readLoop() {
 func (c *Conn) dispatch(fr *FrameHeader) bool {
 	r, ok := c.loadReq(fr.Stream())
 	if !ok {
-		// Nobody is waiting for this stream any more, but DATA on it still
-		// came out of the connection window.
-		if fr.Type() == FrameData {
-			c.consumeConnWindow(fr.Len())
+		// Nobody is waiting for this stream any more.
+		if c.unclaimed(fr) {
+			return true
 		}
 
 		return c.goAwayDone()
@@ -870,11 +878,7 @@ func (c *Conn) dispatch(fr *FrameHeader) bool {
 	if !r.acquireFor(c, fr.Stream()) {
 		c.dequeueReq(fr.Stream())
 
-		if fr.Type() == FrameData {
-			c.consumeConnWindow(fr.Len())
-		}
-
-		return false
+		return c.unclaimed(fr)
 	}
 
 	// Released on the way out even if readStream panics: leaving the Ctx locked
@@ -895,6 +899,72 @@ func (c *Conn) dispatch(fr *FrameHeader) bool {
 	}
 
 	return c.goAwayDone()
+}
+
+// unclaimed deals with a frame for a stream whose request is over: canceled,
+// timed out, failed or already answered. What the frame does to state that is
+// shared by the whole connection still has to happen. DATA came out of the
+// connection window. A header block changes the HPACK dynamic table both ends
+// keep in step (RFC 7540 4.3): skipping one, which is what happened to the late
+// answer to a request that had timed out, left the decoder out of step with
+// the server's encoder, and every later response on the connection was decoded
+// wrongly or not at all. It reports whether the read loop has to stop.
+func (c *Conn) unclaimed(fr *FrameHeader) bool {
+	switch fr.Type() {
+	case FrameData:
+		c.consumeConnWindow(fr.Len())
+	case FrameHeaders, FrameContinuation:
+		if err := c.discardHeaders(fr); err != nil {
+			c.setLastErr(err)
+
+			return true
+		}
+	}
+
+	return false
+}
+
+// discardHeaders runs a header block fragment through the decoder for its
+// effect on the dynamic table only.
+func (c *Conn) discardHeaders(fr *FrameHeader) error {
+	hf := AcquireHeaderField()
+	defer ReleaseHeaderField(hf)
+
+	if fr.Type() == FrameHeaders {
+		c.hdrPending = c.hdrPending[:0]
+		c.hdrFields = 0
+	}
+
+	b := append(c.hdrPending, fr.Body().(FrameWithHeaders).Headers()...)
+	c.hdrPending = b[:0]
+
+	for len(b) > 0 {
+		pb := b
+
+		var (
+			got bool
+			err error
+		)
+
+		b, got, err = c.dec.nextField(hf, c.hdrFields == 0, c.hdrFields, b)
+		if err != nil {
+			if errors.Is(err, ErrUnexpectedSize) && !fr.Flags().Has(FlagEndHeaders) {
+				c.hdrPending = append(c.hdrPending, pb...)
+
+				return nil
+			}
+
+			return err
+		}
+
+		if !got {
+			break
+		}
+
+		c.hdrFields++
+	}
+
+	return nil
 }
 
 // responseEnded reports whether fr is the last frame of the response. END_STREAM
@@ -1628,8 +1698,8 @@ func (c *Conn) readHeader(fr *FrameHeader, r *Ctx) error {
 	// Only a HEADERS frame opens a header block, and a dynamic table size
 	// update may only come at its very start.
 	if fr.Type() == FrameHeaders {
-		r.hdrPending = r.hdrPending[:0]
-		r.hdrFields = 0
+		c.hdrPending = c.hdrPending[:0]
+		c.hdrFields = 0
 		r.hdrRegular = false
 		r.hdrStatus = 0
 		r.hdrEndStream = fr.Flags().Has(FlagEndStream)
@@ -1638,18 +1708,18 @@ func (c *Conn) readHeader(fr *FrameHeader, r *Ctx) error {
 	// A size update may come before the first field of the block, whichever
 	// frame that field is in: an update cut by the frame boundary, or followed
 	// by a cut field, is decoded again with the bytes of the CONTINUATION.
-	blockStart := r.hdrFields == 0
+	blockStart := c.hdrFields == 0
 
 	// a field that the previous frame cut in two is completed by this one
-	b := append(r.hdrPending, fr.Body().(FrameWithHeaders).Headers()...)
-	r.hdrPending = b[:0]
+	b := append(c.hdrPending, fr.Body().(FrameWithHeaders).Headers()...)
+	c.hdrPending = b[:0]
 
 	for len(b) > 0 {
 		pb := b
 
 		var got bool
 
-		b, got, err = dec.nextField(hf, blockStart, r.hdrFields, b)
+		b, got, err = dec.nextField(hf, blockStart, c.hdrFields, b)
 		if err == nil && !got {
 			// the fragment ended on a dynamic table size update
 			break
@@ -1659,14 +1729,14 @@ func (c *Conn) readHeader(fr *FrameHeader, r *Ctx) error {
 			// The field runs past the end of this frame: the rest is in the
 			// CONTINUATION frame that has to follow.
 			if errors.Is(err, ErrUnexpectedSize) && !fr.Flags().Has(FlagEndHeaders) {
-				r.hdrPending = append(r.hdrPending, pb...)
+				c.hdrPending = append(c.hdrPending, pb...)
 				return nil
 			}
 
 			return err
 		}
 
-		r.hdrFields++
+		c.hdrFields++
 
 		// A response carries exactly one pseudo-header, :status, and it must
 		// come before any regular field.
